@@ -283,7 +283,8 @@ Section Create.
                /\ to_cbor env fuel (key_ty ee) ev = Ok data /\ hash_of' alg data = Ok h)
       (* the serialised object has the member list of the object built from the description (digests updated in place) *)
       /\ (exists ents0, from_obj env hash_names H uuid5 fs json_loads json_dumps severable_ids steps_processed steps_digest_ext fuel (TRef root) o
-                          = Ok (VTagged (VKV ents0)) /\ (NoDup (map fst ents0) -> NoDup (map fst ents))).
+                          = Ok (VTagged (VKV ents0)) /\ (NoDup (map fst ents0) -> NoDup (map fst ents))
+                          /\ (forall p, In p ents -> In p ents0 \/ fst p = mi \/ fst p = ai)).
   Proof.
     unfold create. fold root. rewrite Hsteps.
     destruct (from_obj _ _ _ _ _ _ _ _ _ _ fuel (TRef root) o) as [e0|] eqn:E0; cbn [bind]; [|discriminate].
@@ -316,6 +317,8 @@ Section Create.
       destruct (digest_set_bytes _ _ _ Hds') as (j' & a' & old' & -> & ->).
       cbn [digest_alg] in Halg'. destruct a' as [ca|?|?|?|?|?]; try discriminate. injection Halg' as ->.
       exists j', alg', data, h'. auto.
-    - exists ents0. split; [reflexivity|]. intros Hn0. apply kv_set_nodup. apply kv_set_nodup. exact Hn0.
+    - exists ents0. split; [reflexivity|]. split; [intros Hn0; apply kv_set_nodup; apply kv_set_nodup; exact Hn0|].
+      intros p Hp. destruct (kv_set_in _ _ _ _ Hp) as [Hp1| ->]; [|right; right; reflexivity].
+      destruct (kv_set_in _ _ _ _ Hp1) as [Hp0| ->]; [left; exact Hp0|right; left; reflexivity].
   Qed.
 End Create.
